@@ -78,18 +78,18 @@ CHECKS = {
    tech='TLA+ state machine of straight-line programs model-checked by TLC decides NoSolution claims; returned circuits validated by a TLC trace specification'),
 
  'C07': dict(cat='exploration', ref='5 (C07)',
-   text='Hundreds of generator calls (bit-count sums, efficient/naive weighted sums over all short weight vectors, two-number and shifted adders over all small length/shift combinations, add_sum_pow2_m1 up to 70 inputs; bases as enum and in several string spellings; both endiannesses; fresh inputs or arbitrary repeated gates of random host circuits) are recorded; TLC evaluates each resulting circuit on all 2^n rows (n <= 10) or on sampled rows and judges the weighted-sum identity with pairwise distinct levels, a + b*2^shift, returned labels are gates, pre-existing gates keep their function, host inputs/outputs untouched, basis, and the weakest documented gate-count bound. ArithLemmas.tla checks the bit-sequence reference arithmetic against integers.',
+   text='Hundreds of generator calls (bit-count sums, efficient/naive weighted sums over all short weight vectors, two-number and shifted adders over all small length/shift combinations, add_sum_pow2_m1 up to 70 inputs; bases as enum and in several string spellings; both endiannesses; fresh inputs or arbitrary repeated gates of random host circuits) are recorded; TLC evaluates each resulting circuit on all 2^n rows (n <= 10) or on sampled rows and judges the weighted-sum identity with pairwise distinct levels, a + b*2^shift, returned labels are gates, pre-existing gates keep their function, host inputs/outputs untouched, basis, and the weakest documented gate-count bound. ArithLemmas.tla checks the bit-sequence reference arithmetic against integers. ArithAlgoLemmas.tla model-checks the bit-count machine step by step (level invariant on every operand value, termination, minimal width, documented bound) and the adder builders; the netlist each call emitted is compared gate by gate with the model netlist (drift).',
    note='Trusted: TLC, Arith.tla / JudgeArith (executable reference semantics - the "transcribed function" use of the technique), recorder (endianness contract). Exhaustive inside small widths, sampled beyond.',
-   tech='TLA+ reference arithmetic evaluated by TLC on circuits recorded from the generators'),
+   tech='TLA+ reference arithmetic and algorithm-level state-machine models (ArithAlgo: MDFA bit-count machine with its level invariant) checked by TLC; circuits and emitted netlists recorded from the generators validated against them'),
 
  'C08': dict(cat='exploration', ref='5 (C08)',
-   text='generate_mul / add_mul* in all six modes and generate_square / add_square* in both modes, both endiannesses, operands as primary inputs or arbitrary gates of host circuits: all width pairs up to (5,5) (thorough (6,6)) and squares up to 8 (10) bits on ALL operand values; widths reaching the Karatsuba recursion / padding (18, 20, 21, 24x15, 40) and the squarer split (47..54) on sampled operand values. TLC evaluates the recorded netlists (thousands of gates, along a witness order it checks step by step), multiplies the operand bit sequences with Arith.BMul and compares with the returned bits; also result width, fresh gates only, pre-existing gates unchanged.',
+   text='generate_mul / add_mul* in all six modes and generate_square / add_square* in both modes, both endiannesses, operands as primary inputs or arbitrary gates of host circuits: all width pairs up to (5,5) (thorough (6,6)) and squares up to 8 (10) bits on ALL operand values; widths reaching the Karatsuba recursion / padding (18, 20, 21, 24x15, 40) and the squarer split (47..54) on sampled operand values. TLC evaluates the recorded netlists (thousands of gates, along a witness order it checks step by step), multiplies the operand bit sequences with Arith.BMul and compares with the returned bits; also result width, fresh gates only, pre-existing gates unchanged. The multipliers\' own steps (partial products, bit counters, shifted additions) are recorded from outside and validated as behaviours of Ledger.tla (drift); Compress.tla shows the weighted sum invariant for every full/half-adder schedule; sampled rows include mined counterexample candidates.',
    note='Trusted: TLC, Arith.tla (bit-sequence arithmetic checked against integers by ArithLemmas.tla), recorder. Exhaustive in small widths, sampled rows beyond.',
-   tech='TLA+ reference arithmetic evaluated by TLC on circuits recorded from the generators'),
+   tech='TLA+ reference arithmetic evaluated by TLC on recorded circuits; the multipliers' own call traces validated by the TLA+ weight-ledger trace specification (Ledger.tla); compression machine model-checked under every schedule (Compress.tla)'),
  'C09': dict(cat='exploration', ref='5 (C09)',
-   text='Subtraction, subtract-with-compare, div-mod (incl. b = 0), integer square root, the equality gadget against every constant 0..2^(n+1), plus-one through generate_plus_one and add_plus_one (add_outputs F/T, result labels given or not), if-then-else and the pairwise gadgets are called for all small widths, both endiannesses, on fresh inputs and on arbitrary (repeated) gates of random host circuits; TLC evaluates the recorded circuit on ALL operand values and judges the integer identities, that outputs are extended iff asked, that returned labels exist and that pre-existing gates keep their function.',
+   text='Subtraction, subtract-with-compare, div-mod (incl. b = 0), integer square root, the equality gadget against every constant 0..2^(n+1), plus-one through generate_plus_one and add_plus_one (add_outputs F/T, result labels given or not), if-then-else and the pairwise gadgets are called for all small widths, both endiannesses, on fresh inputs and on arbitrary (repeated) gates of random host circuits; TLC evaluates the recorded circuit on ALL operand values and judges the integer identities, that outputs are extended iff asked, that returned labels exist and that pre-existing gates keep their function. ArithAlgoLemmas.tla checks the transcribed builders on every operand value for small widths; emitted netlists are compared gate by gate with the model (drift).',
    note='Trusted: TLC, Arith.tla / JudgeArith, recorder (endianness contract).',
-   tech='TLA+ reference arithmetic evaluated by TLC on circuits recorded from the generators'),
+   tech='TLA+ reference arithmetic and algorithm-level netlist-builder models (ArithAlgo: subtractors, restoring division, digit square root, gadgets) checked by TLC; recorded circuits and emitted netlists validated against them'),
 
  'C04': dict(cat='exploration', ref='5 (C04), 14.4',
    text='Seeded random circuits over the supported gate set (with and without functionally equivalent gates) x bases x size / cut / limit / time-limit / validation settings; every minimize_subcircuits call runs in its own interpreter under a seed-chosen PYTHONHASHSEED and a seed-perturbed cut family (shim enumerator, the supplied family is recorded). TLC judges the returned circuit against a deep copy of the argument: same inputs, same number of outputs, same truth table, not more non-trivial gates; FailedValidationError never; no internal error on circuits TLC finds free of equivalent gates. The function has ten listed known findings (DESIGN 14.4); a failure is attributed to one only if a named deviation operator of the specification explains it (wrong-result findings) or its call-site signature matches (internal errors); anything else is a VIOLATION.',
